@@ -282,7 +282,7 @@ func Check(c *core.Ctx) (map[string]any, []string, error) {
 	if os.Getenv("VERIF_C08_FAMS") == "" || os.Getenv("VERIF_C08_FAMS") == "judge" {
 		n := 1500
 		if c.Thorough() {
-			n = 25000
+			n = 10000
 		}
 		j, err := runJudge(c, n)
 		if err != nil {
